@@ -132,12 +132,42 @@ def run(seed, checks=None, tier="quick"):
     if rc != 0:
         return {"seed": seed, "error": "patch does not apply: " + out[-300:]}
     res = {"seed": seed}
+    # runs against a patched tree are not evidence for the real one: the evidence files are put back afterwards
+    saved = {}
+    for c in checks:
+        p = os.path.join(ROOT, "evidence", c + ".json")
+        if os.path.exists(p):
+            saved[p] = open(p, "rb").read()
     try:
         for c in checks:
             t0 = time.time()
             rc, out = sh("cd %s && ./vcheck run %s %s" % (ROOT, c, tier), timeout=7200)
             viol = [l for l in out.splitlines() if l.startswith("VIOLATION")]
             res[c] = {"exit": rc, "detected": rc == 1 and bool(viol), "secs": round(time.time() - t0, 1), "tail": out[-700:]}
+            via = ""
+            for l in viol:
+                m = re.search(r"replay=(\S+)", l)
+                if m:
+                    via = "generated search (shrunk case kept as caught_by_%s.json)" % c if "/found_" in m.group(1) else "replay tier: " + os.path.relpath(m.group(1), ROOT)
+            # remember the outcome next to the seed (meta.json: detection -> check -> result)
+            mp = os.path.join(d, "meta.json")
+            try:
+                meta = json.load(open(mp))
+            except Exception:
+                meta = {}
+            det = {"tier": tier, "detected": res[c]["detected"], "exit": rc, "secs": res[c]["secs"], "via": via}
+            if via.startswith("replay tier"):
+                # the regression tier stopped the run: does the generated search find it on its own?
+                t1 = time.time()
+                rc2, out2 = sh("cd %s && VERIF_SKIP_REPLAY=1 ./vcheck run %s %s" % (ROOT, c, tier), timeout=7200)
+                v2 = [l for l in out2.splitlines() if l.startswith("VIOLATION")]
+                det["search_alone"] = {"detected": rc2 == 1 and bool(v2), "exit": rc2, "secs": round(time.time() - t1, 1)}
+                for l in v2:
+                    m = re.search(r"replay=(\S+)", l)
+                    if m and "/found_" in m.group(1) and os.path.exists(m.group(1)):
+                        shutil.move(m.group(1), os.path.join(d, "caught_by_%s.json" % c))
+            meta.setdefault("detection", {})[c] = det
+            json.dump(meta, open(mp, "w"), indent=1)
             # violations found under a seeded patch are not regression cases for the real tree
             for l in viol:
                 m = re.search(r"replay=(\S+)", l)
@@ -146,6 +176,8 @@ def run(seed, checks=None, tier="quick"):
                     shutil.move(m.group(1), keep)
     finally:
         sh("git -C /repo checkout -- .")
+        for p, b in saved.items():
+            open(p, "wb").write(b)
     return res
 
 
